@@ -94,7 +94,9 @@ let case (line : string) : string =
             add (Printf.sprintf "f%d " i)
         | EFdFail id -> add (Printf.sprintf "g%d " (int_of_nat id))
         | EConnect c -> add (Printf.sprintf "K:%s " (string_of_z c))
-        | EReopen -> ()) (trace s);
+        | EReopen -> ()                   (* ghost: nothing the implementation shows *)
+        | EOrphan ids ->                  (* the harness reads write_completed_queue after an accepted connect *)
+            add ("o" ^ String.concat "," (List.map (fun i -> string_of_int (int_of_nat i)) ids) ^ " ")) (trace s);
       add (Printf.sprintf "e%s,%d,1" (BZ.to_string !total) (if s.shut || not s.fdopen then 1 else 0));
       (* descriptors the peer receives, per request: one per accepted sendmsg that carried one *)
       List.iter (fun (i, k) -> add (Printf.sprintf " p%d:%d" i k))
